@@ -88,7 +88,8 @@ def order_key(av, floats=False):
 class Opts:
     """deviation switches: with all of them off this is the specification; a known finding is
     recognised by turning its switch on and seeing the implementation's outcome become allowed"""
-    def __init__(self, floats=False, root_scalar_err=False, path_operand_err=False, contains_subset=False):
+    def __init__(self, floats=False, root_scalar_err=False, path_operand_err=False, contains_subset=False, size_missing_err=False):
+        self.size_missing_err = size_missing_err
         self.floats = floats
         self.root_scalar_err = root_scalar_err
         self.path_operand_err = path_operand_err
@@ -110,7 +111,7 @@ def operand_value(item, o, opts=None):
     v = resolve(item, o)
     if k == "size":
         if v is MISSING:
-            return ("size", None)
+            return ("size", None, "missing")
         t = tag(v)
         if t in ("S", "B"):
             return ("size", len(hx(v[t])))
@@ -134,7 +135,11 @@ def cmp_outcomes(op, l, r, opts):
         return x
     sizeundef = (l[0] == "size" and l[1] is None) or (r[0] == "size" and r[1] is None)
     if sizeundef:
-        return {"F", "E"}
+        wrong_type = any(x[0] == "size" and x[1] is None and len(x) == 2 for x in (l, r))
+        if wrong_type:
+            return {"F", "E"}      # size of a number, a boolean or NULL: the property does not say
+        # size of an attribute the item does not have: an operand without a value, the comparison is false
+        return {"E"} if (opts is not None and opts.size_missing_err) else {"F"}
     l, r = as_val(l), as_val(r)
     lm, rm = l[0] == "missing", r[0] == "missing"
     if op in ("=", "<>"):
@@ -216,12 +221,16 @@ def evalc(tree, item, opts=None):
         if fn == "begins_with":
             if x[0] != "val" or tag(x[1]) not in ("S", "B"):
                 return {"E", "F"}
+            if p[0] == "missing":
+                return {"F"}          # an attribute the item does not have begins with nothing: false, not an error
             if p[0] != "val":
                 return {"F", "E"}
             if tag(p[1]) != tag(x[1]) or tag(p[1]) not in ("S", "B"):
                 return {"F", "E"}
             return {"T"} if hx(p[1][tag(p[1])]).startswith(hx(x[1][tag(x[1])])) else {"F"}
         if fn == "contains":
+            if p[0] == "missing" and x[0] == "val":
+                return {"F"}          # ... and contains nothing
             if p[0] != "val" or x[0] != "val":
                 return {"F", "E"}
             tp, tx = tag(p[1]), tag(x[1])
